@@ -24,7 +24,10 @@ let run () = iter_lines (fun line ->
     | cli :: docs :: ex :: seen :: marks_fields ->
       (* marks contain '|' themselves: id|VA|VB|VC|VD joined by ',' *)
       let marks = String.concat "|" marks_fields in
-      let cli = D_config.parse_tc cli in
+      let compat = (let n = String.length cli in n >= 4 && String.sub cli (n - 4) 4 = "cc=1") in
+      let cli = D_config.parse_tc (if compat then String.sub cli 0 (String.length cli - 5) else cli) in
+      if compat then bump "cli:cram-compat";
+      let format_defaults = if compat then tc_default_cram else tc_default_markdown in
       let docs = List.map parse_docd (split_on ';' docs) in
       let main = List.hd docs in
       let exit_code = int_of_string (D_config.field ex) in
@@ -44,7 +47,7 @@ let run () = iter_lines (fun line ->
         let expected di ti =
           let d = List.nth docs di in
           let tc = List.nth d.tests ti in
-          with_defaults (with_overrides (with_defaults (with_defaults tc d.defaults) tc_default_markdown) cli) main.defaults in
+          with_defaults (with_overrides (with_defaults (with_defaults tc d.defaults) format_defaults) cli) main.defaults in
         let earlier : (int * string) list ref = ref [] in     (* variables exported by earlier test cases of the run *)
         List.iter (fun m -> match m with
           | [id; va; vb; vc; vd] ->
